@@ -334,6 +334,8 @@ func (n *Node) yang(b *strings.Builder, d int) {
 			}
 			ind(b, d+1)
 			b.WriteString("}\n")
+		case "decimal64x":
+			b.WriteString("type decimal64 { fraction-digits 8; }\n")
 		case "decimal64":
 			b.WriteString("type decimal64 { fraction-digits 2; }\n")
 		case "identityref":
